@@ -159,6 +159,7 @@ type etcdBackend struct {
 	owner map[int64]int // lease id -> registrant whose registration created it
 	watch bool          // watcher mode (path = selfmon.ActiveKey)
 	mode  string        // "R" (selfmon.run) / "S" (calcium.RegisterService), see clients_test.go
+	beat  time.Duration // 0: hbEtcd
 }
 
 func (e *etcdBackend) name() string { return "etcd" }
@@ -173,8 +174,13 @@ func (e *etcdBackend) coq() string {
 }
 func (e *etcdBackend) store() store.Store { return e.m }
 func (e *etcdBackend) ttl() int64         { return 1 }
-func (e *etcdBackend) hb() time.Duration  { return hbEtcd }
-func (e *etcdBackend) close()             {}
+func (e *etcdBackend) hb() time.Duration {
+	if e.beat > 0 {
+		return e.beat
+	}
+	return hbEtcd
+}
+func (e *etcdBackend) close() {}
 func (e *etcdBackend) start(ctx context.Context) (<-chan struct{}, func(), error) {
 	return e.m.StartEphemeral(ctx, e.path, hbEtcd)
 }
@@ -363,13 +369,16 @@ type registrant struct {
 }
 
 type spec struct {
-	b      string
-	watch  bool   // watcher mode: selfmon.withActiveLock instead of StartEphemeral
-	mode   string // "R": selfmon.run, "S": calcium.RegisterService (clients_test.go)
-	n      int
-	fixed  []mop // corpus: the operations; nil = random
-	seed   int64 // random: private generator seed, drawn from r.Rng
-	length int
+	b     string
+	watch bool   // watcher mode: selfmon.withActiveLock instead of StartEphemeral
+	mode  string // "R": selfmon.run, "S": calcium.RegisterService (clients_test.go)
+	// mode S: the schedule may register somebody right after the lapse of a
+	// believer (etcd heartbeat 1.5 s so that the newcomer wins against the notification)
+	contest bool
+	n       int
+	fixed   []mop // corpus: the operations; nil = random
+	seed    int64 // random: private generator seed, drawn from r.Rng
+	length  int
 }
 
 type outcome struct {
@@ -688,13 +697,13 @@ func TestC26(t *testing.T) {
 	nClient := r.N(2, 20)
 	for _, mode := range []string{"R", "S"} {
 		for _, b := range []string{"etcd", "redis"} {
-			for _, ops := range clientCorpus(mode) {
-				specs = append(specs, spec{b: b, mode: mode, n: 2, fixed: ops})
+			for k, ops := range clientCorpus(mode) {
+				specs = append(specs, spec{b: b, mode: mode, n: 2, fixed: ops, contest: mode == "S" && k == 3})
 			}
 		}
 		for k := 0; k < nClient; k++ {
 			for _, b := range []string{"etcd", "redis"} {
-				specs = append(specs, spec{b: b, mode: mode, n: 2 + r.Rng.Intn(2), seed: r.Rng.Int63(), length: 6 + r.Rng.Intn(4)})
+				specs = append(specs, spec{b: b, mode: mode, n: 2 + r.Rng.Intn(2), seed: r.Rng.Int63(), length: 6 + r.Rng.Intn(4), contest: mode == "S" && k%3 == 1})
 			}
 		}
 	}
@@ -713,7 +722,11 @@ func TestC26(t *testing.T) {
 			case sp.watch || sp.mode == "R":
 				path = selfmon.ActiveKey // fixed: these schedules run one at a time
 			}
-			return &etcdBackend{m: ln.merc, cli: ln.cli, path: path, owner: map[int64]int{}, watch: sp.watch, mode: sp.mode}, nil
+			eb := &etcdBackend{m: ln.merc, cli: ln.cli, path: path, owner: map[int64]int{}, watch: sp.watch, mode: sp.mode}
+			if sp.contest {
+				eb.beat = 1500 * time.Millisecond
+			}
+			return eb, nil
 		}
 		srv, err := miniredis.Run()
 		if err != nil {
@@ -905,5 +918,5 @@ func TestC26(t *testing.T) {
 		tags := map[string]any{"backend": o.b.name(), "client": client, "lapse_while_registered": lwr}
 		r.Add(term, desc, tags, lwr || exists)
 	}
-	r.Finish("per backend (real StartEphemeral on embedded etcd with heartbeat 300 ms / miniredis with heartbeats 300 ms / 1 s / 1.2 s by schedule index; an etcd schedule during which an independent probe saw a stall >= 400 ms is repeated up to three times, then dropped): a corpus of 4 schedules (register-tick-stop; a rejected second registrant that registers after the first stopped; the redis witness lapse-takeover-stop; lapse with nobody taking over), then adaptive random schedules of 8-15 macro operations over 2 or 3 registrants (MReg 35%, MTickAll 30%, MLapse 15%, MStop 20% among the operations legal in the harness view), closed by a Stop of every still-active registrant; non-trivial = a lapse while somebody is registered, or a registration rejected with ErrKeyExists. Watcher mode (client=selfmon): the same operations drive selfmon.withActiveLock through the verif hook (MReg = start a watcher, pending when its first attempt is rejected, at most one pending; MTickAll also waits for the pending watcher's next retry; MStop = cancel the watcher's context), etcd heartbeat 300 ms on the fixed key one schedule at a time, redis heartbeat 1 s: a corpus of 3 schedules per backend (start-tick-stop; a waiting watcher that takes over after a lapse; a watcher cancelled while waiting), then adaptive random schedules of 6-10 operations. Client modes R (client=selfmon.run: the restart loop selfmon.run, pause ConnectionTimeout 2.5 s) and S (client=RegisterService: one Calcium per registrant, same bind address hence one service key): every registration attempt and every expiry channel is observed through a delegating store proxy; the closed flag means 'does not believe it holds' (R: no monitor of the watcher is running, observed through a per-watcher NodeStatusStream wrapper; S: no live registration of the Calcium); generator rules: at most one pending registrant, on etcd at most one lapsed registrant not yet notified, a free key with a pending registrant forces MTickAll, S on etcd: MLapse of a believer forces MTickAll, key-freeing operations aligned to the pending registrant's retries; per mode and backend a corpus of 3 schedules (start-tick-stop; a waiting registrant and a lapse; a lapse with nobody waiting; R also: another watcher registers after a lapse, then the old one is notified), then adaptive random schedules of 6-9 operations; a run in which an expected registration attempt does not show up within its limit is repeated, then dropped and counted, never emitted")
+	r.Finish("per backend (real StartEphemeral on embedded etcd with heartbeat 300 ms / miniredis with heartbeats 300 ms / 1 s / 1.2 s by schedule index; an etcd schedule during which an independent probe saw a stall >= 400 ms is repeated up to three times, then dropped): a corpus of 4 schedules (register-tick-stop; a rejected second registrant that registers after the first stopped; the redis witness lapse-takeover-stop; lapse with nobody taking over), then adaptive random schedules of 8-15 macro operations over 2 or 3 registrants (MReg 35%, MTickAll 30%, MLapse 15%, MStop 20% among the operations legal in the harness view), closed by a Stop of every still-active registrant; non-trivial = a lapse while somebody is registered, or a registration rejected with ErrKeyExists. Watcher mode (client=selfmon): the same operations drive selfmon.withActiveLock through the verif hook (MReg = start a watcher, pending when its first attempt is rejected, at most one pending; MTickAll also waits for the pending watcher's next retry; MStop = cancel the watcher's context), etcd heartbeat 300 ms on the fixed key one schedule at a time, redis heartbeat 1 s: a corpus of 3 schedules per backend (start-tick-stop; a waiting watcher that takes over after a lapse; a watcher cancelled while waiting), then adaptive random schedules of 6-10 operations. Client modes R (client=selfmon.run: the restart loop selfmon.run, pause ConnectionTimeout 2.5 s) and S (client=RegisterService: one Calcium per registrant, same bind address hence one service key): every registration attempt and every expiry channel is observed through a delegating store proxy; the closed flag means 'does not believe it holds' (R: no monitor of the watcher is running, observed through a per-watcher NodeStatusStream wrapper; S: no live registration of the Calcium); generator rules: at most one pending registrant, on etcd at most one lapsed registrant not yet notified, a free key with a pending registrant forces MTickAll, S on etcd: MLapse of a believer forces MTickAll, key-freeing operations aligned to the pending registrant's retries; per mode and backend a corpus of 3 schedules (start-tick-stop; a waiting registrant and a lapse; a lapse with nobody waiting; R also: another watcher registers after a lapse, then the old one is notified; S also the contest: on a 1.5 s etcd heartbeat somebody registers right after the lapse of a believer - validated by its result, otherwise repeated then dropped - the lapsed one's re-registration is rejected and it must register again at a heartbeat retry once the key is free; a missing retry of such a registrant within max(5 heartbeats, 3 s) without a stall is emitted as observed; a third of the random S schedules allow the contest), then adaptive random schedules of 6-9 operations; a run in which an expected registration attempt does not show up within its limit is repeated, then dropped and counted, never emitted")
 }
